@@ -1348,9 +1348,6 @@ impl<'a> Parser<'a> {
       return self.error_current(&format!("Expected '(' after {} name.", self.fun_kind));
     }
 
-    let loop_depth = self.loop_depth;
-    self.loop_depth = 0;
-
     // parse function parameters
     let call_params = self.call_params(TokenKind::RightParen)?;
     let call_sig = self.call_signature(call_params, type_params)?;
@@ -1359,6 +1356,8 @@ impl<'a> Parser<'a> {
       return self.error_current(&format!("Expected '{{' after {} signature.", self.fun_kind));
     }
 
+    // the body starts outside of any loop, restore the depth whether or not it parses
+    let loop_depth = mem::replace(&mut self.loop_depth, 0);
     let fun = self.block(block_return).map(|body| {
       Fun::new(
         Some(name),
